@@ -1,5 +1,5 @@
 """C11 signatures are kept byte-exact; verification is repeatable and non-mutating."""
-import random, itertools, copy
+import os, random, itertools, copy
 from vlib import core, kexec, pool, net, refksi as R, refserver as S, gen
 
 LEVEL = 'exploration'
@@ -335,6 +335,53 @@ def worker(job, r):
     pool.check_exit(None, r, sess.ex)
 
 
+def threads_part(ctx):
+    """The SDK documents one context per thread as its threading model. The verdict of a verification has to be the single-threaded one whatever
+    other contexts are doing at the same time in other threads. Run under ThreadSanitizer, which widens the windows; the verdict comparison decides,
+    the race reports are recorded as observations."""
+    import re
+    exe = ctx.driver('c11_threads', ['c11_threads.c'], kind='tsan')
+    quick = ctx.tier == 'quick'
+    rng = random.Random(ctx.seed * 77 + 3)
+    cal = S.Calendar(b'c11t%d' % ctx.seed)
+    sigs = []
+    for i in range(64 if quick else 160):
+        s = gen.gen_signature(rng, time=1500000000 + i * 7, calendar=cal, with_cal=True, anchor=rng.choice(['pub', 'none', 'auth']) if i % 3 else 'pub', nchains=rng.choice([1, 2, 3]), rfc=False)
+        if i % 6 == 5:
+            ms = gen.mutants(s, rng)
+            s = ms[rng.randrange(len(ms))][1]
+        sigs.append(s.enc().hex())
+    path = os.path.join(ctx.work, 'c11-thread-signatures.txt')
+    with open(path, 'w') as fh:
+        fh.write('\n'.join(sigs) + '\n')
+    races = set()
+    for rep in range(3 if quick else 12):
+        nthreads = [8, 16, 3][rep % 3]
+        args = [str(nthreads), str(12 if quick else 40), path] + (['log'] if rep % 2 else [])
+        env = dict(os.environ, TSAN_OPTIONS='halt_on_error=0:exitcode=0:report_signal_unsafe=0')
+        rc, out, err = ctx.run([exe] + args, timeout=1200, env=env)
+        if rc is None:
+            ctx.count('thread_runs_timed_out')
+            continue
+        m = re.search(r'CASES (\d+) MISMATCH (\d+) SIGNATURES (\d+) REF_OK (\d+) REF_NOT_OK (\d+)', out.decode('utf-8', 'replace'))
+        if not m:
+            ctx.violation('threads:run-died', 'the multi-threaded verification run (one context per thread) ended with rc=%s and no result:\n%s' % (rc, err[-3000:]),
+                          replay='%s %s\n# signatures (hex, one per line):\n%s\n' % (exe, ' '.join(args), '\n'.join(sigs)))
+            continue
+        ctx.count('thread_runs')
+        ctx.count('thread_verifications', int(m.group(1)))
+        ctx.counters['thread_reference_ok'] = int(m.group(4))
+        ctx.counters['thread_reference_not_ok'] = int(m.group(5))
+        ctx.observe(None, int(m.group(1)))
+        if int(m.group(2)):
+            ctx.violation('threads:verdict-differs-from-single-threaded', '%s of %s verifications done by %d threads, each on a context of its own, gave another verdict than the same '
+                          'verification done alone\n%s' % (m.group(2), m.group(1), nthreads, err[-2500:]),
+                          replay='%s %s\n# signatures (hex, one per line):\n%s\n' % (exe, ' '.join(args), '\n'.join(sigs)))
+        for loc in re.findall(r'SUMMARY: ThreadSanitizer: data race (\S+) in (\S+)', err):
+            races.add(loc[1])
+    ctx.extra['thread_sanitizer_race_reports_observed_not_judged'] = sorted(races)
+
+
 def run(ctx):
     exe = kexec.build(ctx)
     quick = ctx.tier == 'quick'
@@ -348,6 +395,8 @@ def run(ctx):
     env = ctx.env()
     jobs = [(exe, env, ctx.work, ctx.seed * 1000 + i, 'random', nrand) for i in range(12)] + [(exe, env, ctx.work, ctx.seed * 1000 + 500 + i, 'exhaustive', (L, i, 4)) for i in range(4)]
     pool.run(ctx, worker, jobs, workers=16)
+    threads_part(ctx)
     c = ctx.counters
     if not ctx.violations and not ctx.known_printed:
+        ctx.require(c.get('thread_verifications', 0) >= 2000 and c.get('thread_reference_ok', 0) >= 20 and c.get('thread_reference_not_ok', 0) >= 3, 'multi-threaded verifications observed')
         ctx.require(c.get('histories', 0) >= 500 and c.get('verifications', 0) >= 2000 and c.get('extensions_ok', 0) >= 50 and c.get('prepend_own_ok', 0) >= 20, 'histories, verifications, extensions and derivations observed')
